@@ -132,6 +132,18 @@ func mxPool(full bool) []mxKind {
 		{"str-long", mxConst(func() *lisp.LVal { return lisp.String(long) })},
 		{"str-fmt", mxConst(func() *lisp.LVal { return lisp.String("{} {0} %s %d {") })},
 		{"str-json", mxConst(func() *lisp.LVal { return lisp.String(`{"a":[1,{"b":null}]}`) })},
+		// numbers at the edges of the machine integers, alone and inside a format directive (an index, a width, a count
+		// read out of a string is where a hand-written digit loop wraps)
+		{"str-fmt-maxint+1", mxConst(func() *lisp.LVal { return lisp.String("{9223372036854775808}") })},
+		{"str-fmt-maxint", mxConst(func() *lisp.LVal { return lisp.String("{9223372036854775807} {}") })},
+		{"str-fmt-2^64", mxConst(func() *lisp.LVal { return lisp.String("{18446744073709551616} { 9223372036854775809 }") })},
+		{"str-fmt-neg", mxConst(func() *lisp.LVal { return lisp.String("{-1} {-9223372036854775808} {+1}") })},
+		{"str-int-maxint+1", mxConst(func() *lisp.LVal { return lisp.String("9223372036854775808") })},
+		{"str-int-minint-1", mxConst(func() *lisp.LVal { return lisp.String("-9223372036854775809") })},
+		{"str-int-2^32", mxConst(func() *lisp.LVal { return lisp.String("4294967296") })},
+		{"str-float-huge", mxConst(func() *lisp.LVal { return lisp.String("1e400") })},
+		{"str-dur-huge", mxConst(func() *lisp.LVal { return lisp.String("9223372036854775808ns") })},
+		{"str-time-edge", mxConst(func() *lisp.LVal { return lisp.String("9999-12-31T23:59:59.999999999-23:59") })},
 		{"str-time", mxConst(func() *lisp.LVal { return lisp.String("2020-02-29T23:59:59.999999999+14:00") })},
 		{"str-dur", mxConst(func() *lisp.LVal { return lisp.String("1ms") })},
 		{"str-regex-bad", mxConst(func() *lisp.LVal { return lisp.String("(a[") })},
